@@ -4,5 +4,6 @@ CONSTANTS
   SMaxNat = {0, 1, 5, 50}
   MaxOpts = 5
   FreeLen = 3
+  ConfStdC = TRUE
 INVARIANTS TypeOK LastWins NoNegative DefaultsInScope
 CHECK_DEADLOCK FALSE
